@@ -275,6 +275,13 @@ def stepEffect (st : Store) : List String → Option (Effect × String)
   | ["shiftedf", i, b] => do
     let i ← parseNat? i; let g ← st[i]?; let b ← parseRatList? b
     pure (Effect.push (g.shiftR roundF64 b), s!"ok {st.length}")
+  | ["absorbs", i, b] => do
+    -- will the binary64 shift by `b` leave every stored value of grid `i` as it is?
+    let i ← parseNat? i; let g ← st[i]?; let b ← parseRatList? b
+    pure (Effect.keep, "ok " ++ showBool (g.coords.absorbs roundF64 b))
+  | ["shiftvals", i] => do
+    let i ← parseNat? i; let g ← st[i]?
+    pure (Effect.keep, "ok " ++ showRatLists g.coords.shiftVals)
   | ["fl", x] => do
     let x ← parseRat? x
     pure (Effect.keep, "ok " ++ showRat (roundF64 x))
